@@ -133,11 +133,11 @@ PROPS["C02"] = dict(
                "(recorded in the task's trace), a fixed window or bucket is replaced only when it is at least refresh_period old and starts full/empty, available <= limit and current_count <= limit are invariants, the sliding log "
                "evicts exactly the entries at least window_duration old (loop invariant) and admits iff fewer than limit remain; acquire returns Ok iff this task took exactly one permit (also after waiting); the inner call "
                "is made only with that permit. Per-step inductive clauses; for all limits, periods, timeouts, arrival instants.",
-    level_note="Mutex critical sections atomic (between two sections any contracted operation of other tasks may have run); monotone clock; limit >= 1, refresh_period > 0, instant + window representable. "
+    level_note="Mutex critical sections atomic (between two sections any contracted operation of other tasks may have run); monotone clock; refresh_period > 0; limit >= 1 and 'instant + window representable' for the fixed window and the sliding counter only — the sliding log is decided for a limit of zero and for an unrepresentable expiry too (that is how the defect repaired by 6157aac was found). "
                "Sliding counter: float comparisons are lifted leaves (weighted < limit implies current < limit: Kani); the global 'windows partition time' statement is the induction over the per-step clauses (meta-argument).",
     technique="contract-based deductive verification (Verus): state invariants + effect trace; Kani float leaves",
     design_ref="§6 C02",
-    assumptions=["std Mutex critical sections are atomic (R8)", "monotone clock", "limit_for_period >= 1 and refresh_period > 0", "estimate_wait_time(..) > 0 whenever no slot is free (IEEE assumption)"],
+    assumptions=["std Mutex critical sections are atomic (R8)", "monotone clock", "refresh_period > 0; limit_for_period >= 1 (fixed window, sliding counter; not assumed for the sliding log)", "estimate_wait_time(..) > 0 whenever no slot is free (IEEE assumption)"],
     trusted=COMMON_TRUST, excluded=["fairness among waiters", "the global window-partition lemma is a meta-argument over the per-step clauses, not a machine-checked lemma"],
 )
 PROPS["C15"] = dict(
